@@ -365,3 +365,21 @@ pub fn out_of_space_is_justified(env: &Env) -> Result<(), Fail> {
         ),
     )
 }
+
+/// memory_usage() and len() against what the indexes actually hold (no model needed).
+pub fn check_accounting_observed(env: &Env) -> Result<(), Fail> {
+    let store = env.st();
+    let overhead = feoxdb::FeoxStore::verif_record_overhead();
+    let keys = store.verif_hash_keys();
+    let want: usize = keys.iter().map(|k| overhead + k.key.len() + k.value_len).sum();
+    if store.memory_usage() != want {
+        return fail(
+            "memory-accounting",
+            format!("memory_usage() = {} but sum(overhead + key + value) over the {} indexed keys = {want}", store.memory_usage(), keys.len()),
+        );
+    }
+    if store.len() != keys.len() {
+        return fail("len-mismatch", format!("len() = {} but {} keys are indexed", store.len(), keys.len()));
+    }
+    Ok(())
+}
